@@ -1545,8 +1545,12 @@ class Store:
                 self.apply_update(update_value, state)
             return _EMPTY_UPDATES
 
-        if self.inner or self.subschema:
-            # Branch update: this node has an inner
+        if self.inner or self.subschema or (
+                not self.leaf and isinstance(update, dict)):
+            # Branch update: this node has an inner, or it is a store
+            # that holds no child at the moment (an agents store
+            # declared with {'*': {}} before the first agent arrives or
+            # after the last one has left)
             process_updates = []
             step_updates = []
             flow_updates = []
